@@ -946,8 +946,14 @@ class Memory(Expression):
     def calculate(self, dst, long, force=False):
         if self.has_endian():
             with self.without_endian().switch_endian(self.fmt) \
-                 .calculate(dst, long, force) as (dst, long):
-                yield dst, long
+                 .calculate(dst, long, force) as (dst, rlong):
+                # the byte swap zero-extends: redo the sign extension
+                bits = calcsize(self.fmt[-1]) * 8
+                if self.signed and 8 < bits < (64 if long else 32):
+                    shift = (64 if long else 32) - bits
+                    regs = self.ebpf.sr if long else self.ebpf.sw
+                    regs[dst] = (regs[dst] << shift) >> shift
+                yield dst, rlong
                 return
         with ExitStack() as exitStack:
             if isinstance(self.address, Sum):
